@@ -205,7 +205,7 @@ def _brief(spec):
             'n_out': len(spec['outputs']), 'network': spec['network']}
 
 # ---- routes: the ways keys and previous-output data reach a transaction
-HOW_IN = ['keys', 'pub', 'nokeys', 'keys_spk']
+HOW_IN = ['keys', 'pub', 'nokeys', 'keys_spk', 'keys_spk_nowt']
 KEY_FORMS = ['Key', 'HDKey', 'bytes', 'hex', 'wif']
 CALLS = ['all', 'per_index', 'each_key', 'per_index_own']
 
@@ -236,7 +236,7 @@ def sub_route(case):
                         locktime=spec['locktime'])
         for inp in spec['inputs']:
             st, wt, comp, ms = txgen.KINDS[inp['kind']]
-            if how_in in ('keys', 'keys_spk'):
+            if how_in in ('keys', 'keys_spk', 'keys_spk_nowt'):
                 ks = [Key(d.to_bytes(32, 'big').hex(), network=net, compressed=comp) for d in inp['keys']]
             elif how_in == 'pub':
                 ks = [secp.ser(secp.pub(d), comp).hex() for d in inp['keys']]
@@ -247,8 +247,12 @@ def sub_route(case):
                             value=inp['value'], compressed=comp)
             else:
                 # keys_spk: the scriptPubKey of the output being spent is handed over as well ("if known")
-                extra = {'locking_script': txgen.input_ref(inp)['spk']} if how_in == 'keys_spk' else {}
-                t.add_input(inp['txid'], inp['vout'], keys=ks if ms else ks[0], script_type=st, witness_type=wt,
+                extra = {'locking_script': txgen.input_ref(inp)['spk']} if how_in.startswith('keys_spk') else {}
+                if how_in != 'keys_spk_nowt':
+                    extra['witness_type'] = wt
+                # keys_spk_nowt: the witness type is left to be read from the scriptPubKey (legacy and native segwit
+                # outputs say it themselves; nested segwit cannot be told from P2SH and is not built this way)
+                t.add_input(inp['txid'], inp['vout'], keys=ks if ms else ks[0], script_type=st,
                             sigs_required=inp.get('m', 1) if ms else None, sequence=inp['seq'], value=inp['value'],
                             compressed=comp, **extra)
         for o in spec['outputs']:
@@ -425,6 +429,8 @@ def run(ctx):
                 i['keys'] = list(spec['inputs'][0]['keys'])
         for how in hows:
             if how == 'nokeys' and (len(kinds) > 1 and not same_key):
+                continue
+            if how == 'keys_spk_nowt' and any(txgen.KINDS[k][1] == 'p2sh-segwit' for k in kinds):
                 continue    # sign() installs ALL given keys on a keyless input: only meaningful with one key
             mixed = len(set(txgen.KINDS[k][2] for k in kinds)) > 1
             for form in KEY_FORMS:
@@ -437,7 +443,8 @@ def run(ctx):
                         continue    # a key that belongs to no key of an input is refused by sign(): one call per input
                     rcases.append({'spec': spec, 'how_in': how, 'form': form, 'call': call, 'same_key': same_key})
     for kind in K:
-        radd([kind], False, HOW_IN if kind in single else ['keys', 'pub', 'keys_spk'])
+        radd([kind], False, [h for h in (HOW_IN if kind in single else ['keys', 'pub', 'keys_spk', 'keys_spk_nowt'])
+                             if not (h == 'keys_spk_nowt' and txgen.KINDS[kind][1] == 'p2sh-segwit')])
     for kinds in itertools.product(single, repeat=2):
         radd(kinds, False)
         radd(kinds, True)
